@@ -55,7 +55,7 @@ rm -f /var/tmp/seed1.$$ /var/tmp/seed3.$$ /var/tmp/seed4.$$
 echo "RESULT prop=$p name=$name demo_without=$r1 demo_with=$r3 suite=$r4 check_rc=$r5 detected=$det"
 if [ $r1 -eq 0 ] && [ $r3 -ne 0 ] && [ $r4 -eq 0 ]; then
   d="$V/seeded/$p-$name"; mkdir -p "$d"
-  cp "$src/patch.diff" "$d/"; cp "$demo" "$d/"; [ -f "$src/README.md" ] && cp "$src/README.md" "$d/"
+  if [ "$src" != "$d" ]; then cp "$src/patch.diff" "$d/"; cp "$demo" "$d/"; [ -f "$src/README.md" ] && cp "$src/README.md" "$d/"; fi
   python3 - "$d" "$p" "$pkg" "$tname" "$det" "$(basename "$demo")" "$skipsuite" <<'PY'
 import json,sys,os
 d,p,pkg,tname,det,demo,skip=sys.argv[1:8]
@@ -70,6 +70,7 @@ if os.path.exists(mp):
     except Exception: old={}
 for k in ("needs_to_manifest","what","notes"):
     if k in old: meta[k]=old[k]
+if skip and old.get("confirmed"): meta["confirmed"]=old["confirmed"]
 json.dump(meta,open(mp,"w"),indent=1)
 PY
   echo "SEED-KEPT $d"
